@@ -22,6 +22,7 @@ import (
 	"os"
 	"os/exec"
 	"reflect"
+	"runtime/pprof"
 	"slices"
 	"sort"
 	"strings"
@@ -814,6 +815,11 @@ func c15ExecPool(in *C15Input) *c15Obs {
 // ---------------------------------------------------------------- child processes
 
 func c15Child() {
+	if pf := os.Getenv("C15_PROF"); pf != "" {
+		f, _ := os.Create(fmt.Sprintf("%s.%d", pf, os.Getpid()))
+		_ = pprof.StartCPUProfile(f)
+		defer pprof.StopCPUProfile()
+	}
 	dec := json.NewDecoder(os.Stdin)
 	enc := json.NewEncoder(os.Stdout)
 	for {
